@@ -1,12 +1,12 @@
 package govc
 
 import (
-	"sync"
 	"fmt"
 	"go/types"
 	"path/filepath"
 	"sort"
 	"strings"
+	"sync"
 
 	"golang.org/x/tools/go/packages"
 	"golang.org/x/tools/go/ssa"
@@ -16,22 +16,22 @@ import (
 const RepoModule = "github.com/paulmach/orb"
 
 type Verifier struct {
-	RepoDir   string
-	Prog      *ssa.Program
-	Pkgs      []*packages.Package
-	SSAPkgs   map[string]*ssa.Package
-	Contracts map[string]*ContractFile // by package path
-	loopCache map[*ssa.Function]*loopInfo
-	effCache  map[*ssa.Function]*effects
-	typeCache map[string]types.Type
-	funcs     map[string]*ssa.Function // by key
-	constGlob map[*ssa.Global]int      // 0 unknown, 1 const, 2 not
-	globInit  map[*ssa.Global]bool
-	disabledCands map[string]bool
-	OvfAssume       bool
-	ConvObligations bool
-	implCache map[string][]types.Type
-	mu        sync.Mutex
+	RepoDir            string
+	Prog               *ssa.Program
+	Pkgs               []*packages.Package
+	SSAPkgs            map[string]*ssa.Package
+	Contracts          map[string]*ContractFile // by package path
+	loopCache          map[*ssa.Function]*loopInfo
+	effCache           map[*ssa.Function]*effects
+	typeCache          map[string]types.Type
+	funcs              map[string]*ssa.Function // by key
+	constGlob          map[*ssa.Global]int      // 0 unknown, 1 const, 2 not
+	globInit           map[*ssa.Global]bool
+	disabledCands      map[string]bool
+	OvfAssume          bool
+	ConvObligations    bool
+	implCache          map[string][]types.Type
+	mu                 sync.Mutex
 	VerifiedSeparately map[string]bool // functions verified as their own unit in this run
 }
 
